@@ -150,6 +150,84 @@ def _worker(payload):
     return asyncio.run(main())
 
 
+def _startup_worker(payload):
+    """
+    Several worker processes of one relay (gunicorn forks them from a master that has imported the application): each runs
+    web.start_mainprocess_tasks(storage) at start-up, and each has its own copy of the lists, kept by its own refresher.
+    The master here is this pool worker; the children are forked one after the other, open the shared database, run the
+    real start-up function, wait for the first refresh and report their allow list.
+    """
+    backend, nworkers, syms = payload
+    import json as _json
+    import os
+    import time
+    from .. import storedrv as D
+
+    uni = Universe(list_universe())
+    sym_of_key = {bytes.fromhex(C.pubkey(k)): k for k in KEYS}
+    import nostr_relay.web as web          # (the application module is imported before the fork, as with gunicorn's preload)
+
+    web.is_main_process.clear()
+    lines = []
+    with C.Scratch(prefix="dynstart-") as d:
+        async def fill():
+            st = await D.open_storage(backend, d, sync_writer=True)
+            for s_ in syms:
+                await st.add_event(D._clone(uni.conc[s_]))
+                if backend == "lmdb":
+                    while st._verif_gate.items:
+                        D.writer_step(st, 1)
+            store = await D.dump_ids(st, backend, uni)
+            await D.close_storage(st)
+            return store
+        store = asyncio.run(fill())
+        for w in range(nworkers):
+            r, wfd = os.pipe()
+            pid = os.fork()
+            if pid == 0:
+                code = 0
+                try:
+                    os.close(r)
+                    import nostr_relay.dynamic_lists as dl
+
+                    async def child():
+                        st = await D.open_storage(backend, d, sync_writer=False)
+                        dl.get_storage = lambda: st
+                        await web.start_mainprocess_tasks(st)
+                        t0 = time.time()
+                        seen = None
+                        # the first refresh runs in a task of its own: wait until the list has settled
+                        while time.time() - t0 < 3.0:
+                            await asyncio.sleep(0.05)
+                            cur = set(dl.ALLOWED_PUBKEYS)
+                            if cur and cur == seen:
+                                break
+                            seen = cur
+                        return sorted(sym_of_key.get(k, "?") for k in dl.ALLOWED_PUBKEYS)
+                    allow = asyncio.run(child())
+                    os.write(wfd, _json.dumps(allow).encode())
+                except BaseException as e:       # noqa: B902 - the child must never return into the pool worker's code
+                    os.write(wfd, _json.dumps({"error": "%s: %s" % (type(e).__name__, e)}).encode())
+                    code = 1
+                finally:
+                    os._exit(code)
+            os.close(wfd)
+            data = b""
+            while True:
+                chunk = os.read(r, 65536)
+                if not chunk:
+                    break
+                data += chunk
+            os.close(r)
+            os.waitpid(pid, 0)
+            got = _json.loads(data.decode() or "null")
+            if not isinstance(got, list):
+                raise RuntimeError("worker start-up scenario failed to run: %r" % (got,))
+            lines.append({"a": "Worker", "w": w + 1, "store": set(store), "allow": set(got)})
+    web.is_main_process.clear()
+    return lines
+
+
 class _Quiet:
     def __getattr__(self, name):
         return lambda *a, **k: None
@@ -188,7 +266,7 @@ def apalache_inductive():
 
 
 def tlaps_proof():
-    """
+    r"""
     DynLists_proofs.tla: the same inductive argument machine-checked by TLAPS for arbitrary Keys, Static and Targets
     (Init => IndInv, IndInv /\ [Next]_vars => IndInv', IndInv => C16_NoEmptyWindow /\ C16_ListExact, hence Spec => []C16).
     Checked from scratch in a temporary copy; skipped (and said so) when tlapm is absent.
@@ -239,6 +317,9 @@ def run_into(out, tier, seed):
         part = [tr for res in results for tr in res]
         defs = {"TD_Universe": uni.tla_universe(), "TD_OneCharNames": set(uni.one_char_names()), "TD_Keys": set(KEYS), "TD_Static": set(static),
                 "TD_AllowQuery": abs_filter_tla(ALLOW_QUERY)}
+        # start-up of several worker processes over one database (each must build its own lists)
+        starts = [(b, 3, o) for b in ("sql", "lmdb") for o in (syms[:2], syms)]
+        part += pool.map_in_workers("harness.checks.dynlists", "_startup_worker", starts, config=cfg)
         v, vstats = tracedata.validate("DynLists_Trace", defs, part, batch=10)
         out.add_model(vstats)
         for k in range(len(part)):
